@@ -139,7 +139,10 @@ func spell(t *rapid.T, ch byte, allowLiteralWS bool) string {
 	}
 }
 
-var wsRefs = []string{"&amp;Tab;", "&amp;NewLine;", "&amp;#9;", "&#38;#10;", "&amp;#1;", "&#x26;Tab;", "\\&Tab;", "&amp;amp;Tab;", "&Tab;", "&NewLine;", "&#9;", "&#10;", "&#13;", "&#x9;", "&#xA;", "&#32;", "&#1;", "&#31;", "&#0;", "&nbsp;", "&#160;", "&#8203;", "&ZeroWidthSpace;", " ", "​", "\x01", "\x1f", "\x7f", "\\\t", "%09", "%0a", "%20", "\\ "}
+var wsRefs = []string{"&amp;Tab;", "&amp;NewLine;", "&amp;#9;", "&#38;#10;", "&amp;#1;", "&#x26;Tab;", "\\&Tab;", "&amp;amp;Tab;", "&Tab;", "&NewLine;", "&#9;", "&#10;", "&#13;", "&#x9;", "&#xA;", "&#32;", "&#1;", "&#31;", "&#0;", "&nbsp;", "&#160;", "&#8203;", "&ZeroWidthSpace;", " ", "​", "\x01", "\x1f", "\x7f", "\\\t", "%09", "%0a", "%20", "\\ ",
+	// bytes that are not valid UTF-8 (lone continuation / lead bytes, overlong, truncated sequences): an escaper that
+	// drops or rewrites them after the danger test would glue the scheme back together
+	"\x80", "\xbf", "\xff", "\xfe", "\xf8", "\xc3", "\xe3\x80", "\xf0\x9f", "\xc0\xaf", "\xed\xa0\x80", "%80", "%ff", "&#xD800;", "&#x110000;", "\ufeff", "\u00ad", "&shy;"}
 var wsLiteral = []string{" ", "\t", "  "}
 
 func buildURL(t *rapid.T, angle bool) (string, bool) {
@@ -227,6 +230,9 @@ func document(t *rapid.T) []byte {
 	}
 	if rapid.IntRange(0, 3).Draw(t, "post") == 0 {
 		doc += "\n" + string(gen.Soup(t, gen.Any, 6, "postsoup"))
+	}
+	if rapid.IntRange(0, 7).Draw(t, "bytemut") == 0 {
+		return gen.ByteMutate(t, gen.Any, []byte(doc), "bm")
 	}
 	return []byte(doc)
 }
